@@ -7,6 +7,7 @@ import Driver.Version
 import Driver.Validate
 import Driver.KeyedLock
 import Driver.CliConfig
+import Driver.RunLimit
 
 def main (args : List String) : IO UInt32 := do
   let stdin ← IO.getStdin
@@ -19,4 +20,5 @@ def main (args : List String) : IO UInt32 := do
   | ["validate"] => Drv.loop stdin Drv.Validate.step (); return 0
   | ["keyedlock"] => Drv.loop stdin Drv.KeyedLock.step {}; return 0
   | ["cliconfig"] => Drv.loop stdin Drv.CliConfig.step (CliConfig.init CliConfig.srcCfg); return 0
+  | ["runlimit"] => Drv.loop stdin Drv.RunLimit.step {}; return 0
   | _ => IO.eprintln "usage: wfdriver <model>"; return 2
